@@ -78,11 +78,13 @@ func (l lagCtx) Deadline() (time.Time, bool) { return l.dl, true }
 
 // TStep is one step of a ticker script.
 //
-//	new d j | sleep dt | wait | poll | reset d j | stop
+//	new d j | sleep dt | wait | poll | collect | reset d j | stop
 //
 // "sleep" lets the virtual clock run for dt in the scripting goroutine WITHOUT waiting for the other
 // goroutines to settle: the next step races with whatever became runnable at that instant. "wait" is
-// synctest.Wait(). "stop" is Stop() followed at once by a non-blocking drain of the channel (a tick
+// synctest.Wait(). "collect" receives (blocking, in a helper goroutine) every tick that arrives until the
+// bubble is quiescent - unlike "wait; poll" it also sees several ticks sent at one virtual instant (the
+// channel holds one tick; a tick that finds it full is dropped); used by monitors-only scripts. "stop" is Stop() followed at once by a non-blocking drain of the channel (a tick
 // found there was sent before Stop returned).
 type TStep struct {
 	Op string `json:"op"`
@@ -320,6 +322,20 @@ type paramSet struct {
 
 func validParams(d, j int64) bool { return d > 0 && j >= 0 && j < d }
 
+// sumOverflows: d + jitter does not fit into a Duration (for documented arguments: jitter > MaxInt64 - d).
+// That is the input class of D20: the largest interval the ticker may draw, d + jitter, is not
+// representable, and for jitter >= 2^62 neither is 2*jitter + 1.
+func sumOverflows(d, j int64) bool { return d > 0 && j >= 0 && j > math.MaxInt64-d }
+
+// tickerParams: the (small, stable) parameters of a ticker failure.
+func tickerParams(d, j int64) map[string]interface{} {
+	p := map[string]interface{}{"jitter_zero": j == 0}
+	if sumOverflows(d, j) {
+		p["d_plus_jitter_overflows"] = true
+	}
+	return p
+}
+
 func runTicker(t *testing.T, steps []TStep, seed int64) tickerRun {
 	var r tickerRun
 	synctest.Test(t, func(t *testing.T) {
@@ -337,9 +353,48 @@ func runTicker(t *testing.T, steps []TStep, seed int64) tickerRun {
 				r.fail = &fail{kind, p, what}
 			}
 		}
-		poll := func(drainAfterStop bool) {
+		var poll func(drainAfterStop bool)
+		var got *time.Time // a tick handed over by "collect"
+		// collect: a helper goroutine receives until the bubble is quiescent
+		collect := func() {
+			var mu sync.Mutex
+			var ticks []time.Time
+			quit, done := make(chan struct{}), make(chan struct{})
+			go func() {
+				defer close(done)
+				for {
+					select {
+					case v := <-tk.C:
+						mu.Lock()
+						ticks = append(ticks, v)
+						mu.Unlock()
+					case <-quit:
+						return
+					}
+				}
+			}()
+			synctest.Wait()
+			close(quit)
+			<-done
+			for i := range ticks {
+				if i >= 8 {
+					break
+				}
+				got = &ticks[i]
+				poll(false)
+			}
+			got = nil
+			settled = true
+		}
+		poll = func(drainAfterStop bool) {
+			var in <-chan time.Time = tk.C
+			if got != nil {
+				c := make(chan time.Time, 1)
+				c <- *got
+				in = c
+			}
 			select {
-			case v := <-tk.C:
+			case v := <-in:
 				ts := int64(v.Sub(start))
 				r.lines = append(r.lines, fmt.Sprintf("poll tick %d", ts))
 				r.ticks++
@@ -351,15 +406,21 @@ func runTicker(t *testing.T, steps []TStep, seed int64) tickerRun {
 					// the parameters that can have been in force when this tick was sent
 					var minGap int64 = -1
 					var pd, pj int64
+					ovf := false
 					for i, h := range hist {
 						if h.at <= ts && (i == len(hist)-1 || hist[i+1].at >= ts) {
 							if g := h.d - h.j; minGap < 0 || g < minGap {
 								minGap, pd, pj = g, h.d, h.j
 							}
+							ovf = ovf || sumOverflows(h.d, h.j)
 						}
 					}
 					if minGap >= 0 && ts-lastTick < minGap {
-						setFail("ticker-spacing", map[string]interface{}{"jitter_zero": pj == 0},
+						fp := tickerParams(pd, pj)
+						if ovf { // one of the parameter sets that can have been in force is of the D20 class
+							fp["d_plus_jitter_overflows"] = true
+						}
+						setFail("ticker-spacing", fp,
 							fmt.Sprintf("consecutive ticks at %s and %s are %s apart, less than d - jitter = %s - %s",
 								dur(lastTick), dur(ts), dur(ts-lastTick), dur(pd), dur(pj)))
 					}
@@ -380,7 +441,7 @@ func runTicker(t *testing.T, steps []TStep, seed int64) tickerRun {
 				if p {
 					r.lines = append(r.lines, fmt.Sprintf("new %d %d panic", st.A, st.B))
 					if validParams(st.A, st.B) {
-						setFail("ticker-panic-new", map[string]interface{}{"jitter_zero": st.B == 0},
+						setFail("ticker-panic-new", tickerParams(st.A, st.B),
 							fmt.Sprintf("NewJitterTicker(%s, %s) panicked: %v", dur(st.A), dur(st.B), pv))
 					}
 				} else {
@@ -406,6 +467,10 @@ func runTicker(t *testing.T, steps []TStep, seed int64) tickerRun {
 				if alive {
 					poll(false)
 				}
+			case "collect":
+				if alive {
+					collect()
+				}
 			case "reset":
 				if !alive {
 					continue
@@ -417,7 +482,7 @@ func runTicker(t *testing.T, steps []TStep, seed int64) tickerRun {
 				if p {
 					r.lines = append(r.lines, fmt.Sprintf("reset %d %d panic", st.A, st.B))
 					if validParams(st.A, st.B) {
-						setFail("ticker-panic-reset", map[string]interface{}{"jitter_zero": st.B == 0},
+						setFail("ticker-panic-reset", tickerParams(st.A, st.B),
 							fmt.Sprintf("Reset(%s, %s) panicked: %v", dur(st.A), dur(st.B), pv))
 						alive = false // the mutex may be held forever
 					}
@@ -968,6 +1033,38 @@ func bigTicker(r *vlib.Rand) []TStep {
 	return steps
 }
 
+// extremePairs: documented arguments (d > 0, 0 <= jitter < d) at the int64 boundaries: 2*jitter + 1 and
+// d + jitter at, just below and beyond MaxInt64 (D20).
+func extremePairs() [][2]int64 {
+	const p62 = int64(1) << 62
+	return [][2]int64{
+		{maxDur, maxDur - 1}, {p62 + 1, p62}, {p62, p62 - 1}, {maxDur, p62 >> 1}, {maxDur, 0}, {maxDur - 1, 1},
+		{p62 + 5, p62 - 3}, {maxDur, 1}, {maxDur, p62 - 1}, {maxDur, p62}, {p62 + 10, p62}, {maxDur - 1, p62 + 7},
+		{maxDur - 2, 2}, {maxDur, 2}, {p62 + p62>>1, p62 - 1}, {p62 + p62>>1, p62>>1 + 1},
+	}
+}
+
+// extremeTicker: a ticker created with (or Reset to) a pair of extremePairs, then observed WITHOUT letting
+// the clock run (a correct ticker's first tick is at least d - jitter away, which for these pairs is up to
+// 292 years; the virtual clock, which starts in the year 2000, cannot go that far). What can be seen at
+// once: a panic, and ticks that arrive although no time has passed ("collect" receives them one after the
+// other) - each of them less than d - jitter after its predecessor.
+func extremeTicker(d, j int64, viaReset bool, tail int64) []TStep {
+	var steps []TStep
+	if viaReset {
+		steps = append(steps, TStep{Op: "new", A: 1000, B: 1}, TStep{Op: "collect"}, TStep{Op: "reset", A: d, B: j})
+	} else {
+		steps = append(steps, TStep{Op: "new", A: d, B: j})
+	}
+	steps = append(steps, TStep{Op: "collect"}, TStep{Op: "wait"}, TStep{Op: "poll"})
+	if tail > 0 { // d - jitter is small: let a few periods pass as well
+		for i := 0; i < 3; i++ {
+			steps = append(steps, TStep{Op: "sleep", A: tail}, TStep{Op: "wait"}, TStep{Op: "poll"})
+		}
+	}
+	return append(steps, TStep{Op: "stop"}, TStep{Op: "wait"}, TStep{Op: "poll"})
+}
+
 // malformedTicker: arguments outside the documented domain (documented panics only).
 func malformedTicker(r *vlib.Rand) []TStep {
 	bad := func() (int64, int64) {
@@ -1388,6 +1485,23 @@ func TestVerif(t *testing.T) {
 					}
 					x.do(Case{Kind: "ticker", Steps: gridTicker(d, j, at, op), Seed: seed()}, "ticker-grid")
 				}
+			}
+		}
+	}
+	// documented arguments at the int64 boundaries (D20): NewJitterTicker and Reset with each pair, under
+	// several seeds of math/rand (whether d + r - jitter leaves the int64 range depends on the draw r)
+	reps := 8
+	if env.Thorough() || env.Deep {
+		reps = 40
+	}
+	for _, p := range extremePairs() {
+		var tail int64
+		if p[0]-p[1] <= 1000 {
+			tail = p[0] - p[1]
+		}
+		for _, viaReset := range []bool{false, true} {
+			for i := 0; i < reps; i++ {
+				x.do(Case{Kind: "ticker", Steps: extremeTicker(p[0], p[1], viaReset, tail), Seed: seed(), NoModel: true}, "ticker-extreme")
 			}
 		}
 	}
